@@ -38,7 +38,16 @@ pub struct RfScn {
 /// The same records in another physical order (see fam_histr::relayout); `bounds` are not kept.
 pub fn relaid(f: &ValidFile, layout: u8) -> ValidFile {
     let (shp, shx) = crate::fam_histr::relayout(f, layout);
-    ValidFile { shp, shx, expected: f.expected.clone(), bounds: vec![] }
+    // where each record (in index order) lies in the re-laid-out file: the offset of its entry,
+    // its own length
+    let bounds = (0..f.bounds.len())
+        .map(|i| {
+            let o = 100 + 8 * i;
+            let off = i32::from_be_bytes([shx[o], shx[o + 1], shx[o + 2], shx[o + 3]]) as usize * 2;
+            (off, off + (f.bounds[i].1 - f.bounds[i].0))
+        })
+        .collect();
+    ValidFile { shp, shx, expected: f.expected.clone(), bounds }
 }
 
 pub fn generate_file(r: &mut Rng) -> WProg {
@@ -357,6 +366,37 @@ fn is_io(res: &Option<Item>) -> bool {
 pub fn run_case(scn: &RfScn, f: &ValidFile, ctx: &mut Ctx) {
     let n = f.expected.len();
     match &scn.kind {
+        RfKind::TruncShp(len) if scn.layout != 0 => {
+            // a re-laid-out file cut at `len`, read with its (complete) index: record i is returned iff
+            // it lies wholly inside the retained bytes - wherever the cut falls among the others - and is
+            // an I/O error otherwise
+            let len = (*len).min(f.shp.len());
+            let world = World::with_data(Plan::default(), f.shp[..len].to_vec(), f.shx.clone(), vec![]);
+            let marks = traverse(&world, true, scn.rstack, n);
+            ctx.stats.absorb_world(&world.borrow());
+            let what = format!("re-laid-out shp (layout {}) truncated to {} of {} bytes, with index", scn.layout, len, f.shp.len());
+            genuine_only(ctx, &marks, f, &what);
+            if marks.iter().any(|m| m.panic.is_some()) || len < 100 {
+                return;
+            }
+            ctx.stats.reach("relaid-shp-cut");
+            let nexts: Vec<&RMark> = marks.iter().filter(|m| m.call.starts_with("next#")).collect();
+            for i in 0..n {
+                let whole = f.bounds[i].1 <= len;
+                match (whole, nexts.get(i).map(|m| &m.res)) {
+                    (true, Some(Some(Ok(_)))) => {}
+                    (false, Some(r)) if is_io(r) => {}
+                    (true, other) => {
+                        ctx.fail("C13", "whole-records-returned", "iter-relaid", format!("{}: record {} (bytes {}..{}) lies wholly inside the retained bytes but iteration gave {:?}", what, i, f.bounds[i].0, f.bounds[i].1, other.map(|r| r.as_ref().map(item_short))));
+                        return;
+                    }
+                    (false, other) => {
+                        ctx.fail("C13", "cut-record-is-io-error", "iter-relaid", format!("{}: record {} (bytes {}..{}) is cut but iteration gave {:?}", what, i, f.bounds[i].0, f.bounds[i].1, other.map(|r| r.as_ref().map(item_short))));
+                        return;
+                    }
+                }
+            }
+        }
         RfKind::TruncShp(len) => {
             let len = (*len).min(f.shp.len());
             let world = World::with_data(Plan::default(), f.shp[..len].to_vec(), f.shx.clone(), vec![]);
@@ -510,8 +550,8 @@ pub fn execute(scn: &RfScn, ctx: &mut Ctx) {
         return;
     };
     if scn.layout != 0 {
-        if !scn.with_shx || !matches!(scn.kind, RfKind::Plan(_)) || f.bounds.is_empty() {
-            ctx.fail("HARNESS", "invalid-scenario", "layout", "re-laid-out files are only traversed with their index under a fault plan".to_string());
+        if !scn.with_shx || matches!(scn.kind, RfKind::TruncShx(_)) || f.bounds.is_empty() {
+            ctx.fail("HARNESS", "invalid-scenario", "layout", "re-laid-out files are only traversed with their index, under a fault plan or cut".to_string());
             return;
         }
         run_case(scn, &relaid(&f, scn.layout), ctx);
@@ -554,6 +594,7 @@ fn unit_with(w: WProg, r: &mut Rng, trunc_stride: usize, op_stride: u32, ctx: &m
     let rstacks = [StackCfg::Direct, StackCfg::Buf(small), StackCfg::Buf(8192)];
     let f1 = relaid(&f, 1);
     let f2 = relaid(&f, 2);
+    let f4 = relaid(&f, 4);
     let layout_cell = std::cell::Cell::new(0u8);
     let mut case = |kind: RfKind, with_shx: bool, rstack: StackCfg, ctx: &mut Ctx, ctl: &mut UnitCtl| {
         let layout = layout_cell.get();
@@ -562,7 +603,7 @@ fn unit_with(w: WProg, r: &mut Rng, trunc_stride: usize, op_stride: u32, ctx: &m
             return;
         }
         ctx.stats.evaluations += 1;
-        run_case(&scn, match layout { 0 => &f, 1 => &f1, _ => &f2 }, ctx);
+        run_case(&scn, match layout { 0 => &f, 1 => &f1, 4 => &f4, _ => &f2 }, ctx);
         if ctx.stats.samples.len() < 2 && matches!(scn.kind, RfKind::TruncShp(130)) {
             ctx.stats.samples.push(serde_json::json!({"type": type_name(scn.w.shapes[0].ty), "shapes": scn.w.shapes.len(), "kind": scn.kind, "with_shx": scn.with_shx, "rstack": format!("{:?}", scn.rstack)}));
         }
@@ -587,12 +628,22 @@ fn unit_with(w: WProg, r: &mut Rng, trunc_stride: usize, op_stride: u32, ctx: &m
             let w0 = World::with_data(Plan::default(), f.shp.clone(), f.shx.clone(), vec![]);
             let _ = traverse(&w0, with_shx, rs, f.expected.len());
             let ops = [w0.borrow().devices[SHP].ops, w0.borrow().devices[SHX].ops];
+            // which operations of each device are seeks (every operation is logged, in order)
+            let seek_ops: [Vec<u32>; 2] = {
+                let wb = w0.borrow();
+                let of = |d: usize| wb.events_of(d).iter().enumerate().filter(|(_, ei)| wb.log[**ei].kind == OpKind::Seek).map(|(k, _)| k as u32).collect::<Vec<u32>>();
+                [of(SHP), of(SHX)]
+            };
             for dev in 0..2 {
                 for k in 0..ops[dev] {
-                    if op_stride > 1 && k > 60 && k % op_stride != 0 {
+                    if op_stride > 1 && k > 60 && k % op_stride != 0 && !seek_ops[dev].contains(&k) {
                         continue;
                     }
-                    for kind in [FaultKind::Err(((k + dev as u32) % 6) as u8), FaultKind::Eintr] {
+                    for kind in [FaultKind::Err(((k + dev as u32) % 6) as u8), FaultKind::Eintr, FaultKind::ErrMoved(((k + dev as u32) % 6) as u8)] {
+                        // a seek that moves and then fails: only where operation k is a seek
+                        if matches!(kind, FaultKind::ErrMoved(_)) && !seek_ops[dev].contains(&k) {
+                            continue;
+                        }
                         let mut plan = Plan::default();
                         plan.faults.push(Fault { dev: dev as u8, at: k, kind, persistent: false });
                         case(RfKind::Plan(plan), with_shx, rs, ctx, ctl);
@@ -614,18 +665,29 @@ fn unit_with(w: WProg, r: &mut Rng, trunc_stride: usize, op_stride: u32, ctx: &m
     }
     // re-laid-out files: the indexed traversal seeks, so seek faults land inside iteration too
     if f.expected.len() >= 2 {
-        for layout in [1u8, 2] {
+        for layout in [1u8, 2, 4] {
             layout_cell.set(layout);
-            let fl = if layout == 1 { &f1 } else { &f2 };
+            let fl = match layout { 1 => &f1, 4 => &f4, _ => &f2 };
+            // every cut of the re-laid-out .shp (strided for large files), read with the complete index
+            for len in (100..=fl.shp.len()).step_by(trunc_stride.max(1)) {
+                case(RfKind::TruncShp(len), true, rstacks[len % 3], ctx, ctl);
+            }
             for rs in rstacks {
                 let w0 = World::with_data(Plan::default(), fl.shp.clone(), fl.shx.clone(), vec![]);
                 let _ = traverse(&w0, true, rs, fl.expected.len());
                 let ops = w0.borrow().devices[SHP].ops;
+                let seek_ops_l: Vec<u32> = {
+                    let wb = w0.borrow();
+                    wb.events_of(SHP).iter().enumerate().filter(|(_, ei)| wb.log[**ei].kind == OpKind::Seek).map(|(k, _)| k as u32).collect()
+                };
                 for k in 0..ops {
-                    if op_stride > 1 && k > 60 && k % op_stride != 0 {
+                    if op_stride > 1 && k > 60 && k % op_stride != 0 && !seek_ops_l.contains(&k) {
                         continue;
                     }
-                    for kind in [FaultKind::Err((k % 6) as u8), FaultKind::Eintr] {
+                    for kind in [FaultKind::Err((k % 6) as u8), FaultKind::Eintr, FaultKind::ErrMoved((k % 6) as u8)] {
+                        if matches!(kind, FaultKind::ErrMoved(_)) && !seek_ops_l.contains(&k) {
+                            continue;
+                        }
                         let mut plan = Plan::default();
                         plan.faults.push(Fault { dev: SHP as u8, at: k, kind, persistent: false });
                         case(RfKind::Plan(plan), true, rs, ctx, ctl);
